@@ -1,14 +1,14 @@
 (* Executable instance of the graph model over Z with the observation encoding of
    harness/src/bin/c09.rs; evaluated by coqc on the correspondence cases. *)
 Require Import List ZArith Bool.
-From Dasp Require Import Base.Res Base.ListX Graph.Dfs Graph.Process.
+From Dasp Require Import Base.Res Base.ListX Graph.Dfs Graph.Process Graph.ProcessPanic.
 Import ListNotations.
 Local Open Scope Z_scope.
 
 (* the instrumented node of the harness: identity, kind (0 pure / 1 counts its calls),
    call count, value, number of output buffers (0, 1, 2, ...: a node may have none).
    What an Input to the node shows: its list of buffers, each (value, identity sentinel). *)
-Record znode := { ident : Z; kind : Z; count : Z; val : Z; nbufs : nat }.
+Record znode := { ident : Z; kind : Z; count : Z; val : Z; nbufs : nat; armed : bool }.
 Definition zbuf := list (Z * Z).
 Definition zbufs (w : znode) : zbuf := repeat (val w, ident w) (nbufs w).
 
@@ -21,9 +21,16 @@ Fixpoint wsum (i : Z) (l : list zbuf) : Z :=
 Definition znproc (w : znode) (ins : list zbuf) : znode :=
   {| ident := ident w; kind := kind w; count := count w + 1;
      val := ((ident w + 1) * 7 + 1000 * kind w * count w + wsum 1 ins) mod 65521;
-     nbufs := nbufs w |}.
+     nbufs := nbufs w; armed := armed w |}.
 
-Inductive zop := ZN (k b : Z) | ZE (a b : Z) | ZR (a : Z) | ZP (o : Z) | ZB | ZQ.
+(* an armed node panics inside Node::process on its next invocation, once: it has logged what
+   it was given and disarmed itself, but neither counted the call nor written its buffers *)
+Definition znfail (w : znode) (_ : list zbuf) : option znode :=
+  if armed w
+  then Some {| ident := ident w; kind := kind w; count := count w; val := val w; nbufs := nbufs w; armed := false |}
+  else None.
+
+Inductive zop := ZN (k b : Z) | ZE (a b : Z) | ZR (a : Z) | ZP (o : Z) | ZB | ZQ | ZA (a : Z).
 
 Definition n (z : Z) : nat := Z.to_nat z.
 Definition zn (k : nat) : Z := Z.of_nat k.
@@ -40,24 +47,31 @@ Definition slot_val (s : option znode) : Z :=
 Definition slot_count (s : option znode) : Z := match s with Some w => count w | None => -1 end.
 Definition slot_nbufs (s : option znode) : Z := match s with Some w => zn (nbufs w) | None => -1 end.
 
-Definition zstate := (graph znode * processor)%type.
+Definition zstate := (graph znode * fprocessor)%type.
 
 (* one script operation: new state and its observations, or the panic that ends the case *)
 Definition zstep (st : zstate) (o : zop) : res (zstate * list (list Z)) :=
   let (g, p) := st in
   match o with
   | ZN k b =>
-    let (g1, i) := add_node {| ident := 0; kind := k; count := 0; val := 0; nbufs := n b |} g in
-    let g2 := set_weight g1 i {| ident := zn i; kind := k; count := 0; val := 50000 + zn i; nbufs := n b |} in
+    let (g1, i) := add_node {| ident := 0; kind := k; count := 0; val := 0; nbufs := n b; armed := false |} g in
+    let g2 := set_weight g1 i {| ident := zn i; kind := k; count := 0; val := 50000 + zn i; nbufs := n b; armed := false |} in
     Ok ((g2, p), [[1; zn i]])
   | ZE a b => let* g' := add_edge (n a) (n b) g in Ok ((g', p), [[2]])
   | ZR a => let (g', r) := remove_node (n a) g in Ok ((g', p), [[3; if r then 1 else 0]])
   | ZP o =>
-    let* r := process zbufs znproc p g (n o) in
-    let '(p', g', log) := r in
-    Ok ((g', p'), [10; zn (length log)] :: map enc_inv log)
+    let* r := process_f zbufs znproc znfail p g (n o) in
+    let '(p', g', log, fr) := r in
+    Ok ((g', p'), ([10; zn (length log)] :: map enc_inv log) ++
+                  match fr with Done => [] | NodePanic x => [[17; zn x]] end)
   | ZB => Ok (st, [12 :: map slot_val (slots g); 13 :: map slot_count (slots g); 16 :: map slot_nbufs (slots g)])
   | ZQ => Ok (st, [14 :: map zn (sources g); 15 :: map zn (sinks g)])
+  | ZA a =>
+    match weight g (n a) with
+    | Some w => Ok ((set_weight g (n a) {| ident := ident w; kind := kind w; count := count w; val := val w;
+                                            nbufs := nbufs w; armed := true |}, p), [[18]])
+    | None => Ok (st, [[18]])
+    end
   end.
 
 Fixpoint zrun (st : zstate) (ops : list zop) : list (list Z) :=
@@ -71,7 +85,7 @@ Fixpoint zrun (st : zstate) (ops : list zop) : list (list Z) :=
   end.
 
 (* the graph kind (Graph / StableGraph) only restricts the script (no ZR on a plain Graph) *)
-Definition run_case (ops : list zop) : list (list Z) := zrun (empty_graph, new_processor) ops.
+Definition run_case (ops : list zop) : list (list Z) := zrun (empty_graph, new_fprocessor) ops.
 
 Definition zll_eqb (a b : list (list Z)) : bool :=
   if list_eq_dec (list_eq_dec Z.eq_dec) a b then true else false.
